@@ -353,8 +353,6 @@ def chord_instrument_to_notes(chord, voice, part_name, ins_idx, last_spelling=No
     """
 
     # Enharmonic
-    old_last_is_silence = last_is_silence
-    last_is_silence = False
     FIGURES = ['n', 'ppp', 'pp', 'p', 'mp', 'mf', 'f', 'ff', 'fff']
     if part_name in chord.score.keys():
         part = chord.score[part_name]
@@ -371,6 +369,7 @@ def chord_instrument_to_notes(chord, voice, part_name, ins_idx, last_spelling=No
                     curr_dynamic = n.amp_figure
                 if (last_pitch != old_last_pitch) or (not no_repeat):
                     voice.append(new_note)
+                    last_is_silence = False
                 else:
                     try:
                         if last_spelling is not None and not last_is_silence:
@@ -389,8 +388,6 @@ def chord_instrument_to_notes(chord, voice, part_name, ins_idx, last_spelling=No
                 voice.append(note.Rest(n.duration))
                 last_is_silence = True
             elif n.is_continuation:
-                if old_last_is_silence:
-                    last_is_silence = True
                 try:
                     if last_spelling is not None and not last_is_silence:
                         new_note = note.Note(last_spelling)
@@ -407,6 +404,7 @@ def chord_instrument_to_notes(chord, voice, part_name, ins_idx, last_spelling=No
 
     else:
         voice.append(note.Rest(chord.duration))
+        last_is_silence = True
 
     return voice, last_spelling, curr_dynamic, last_pitch, last_is_silence
 
